@@ -1852,7 +1852,7 @@ impl<'tcx> Interp<'tcx> {
                         ]));
                     }
                 }
-                let has_top = bits.iter().any(|b| *b == Bit::T);
+                let has_top = bits.iter().any(|b| matches!(b, Bit::T | Bit::F(_)));
                 let mut forks = Vec::new();
                 for (v, t) in listed.iter() {
                     let mut s2 = st.clone();
